@@ -100,6 +100,7 @@ pub trait Renderable {
     spec fn rid(&self) -> RId;
     fn render_to(&self, writer: &mut Sink, runtime: &dyn Runtime) -> (r: Result<()>)
         requires !old(writer).failed@,                                                               // [C10:no_write_after_failure]
+                 runtime.writable(),                                                                  // [C02:scope_has_assignment_and_counter_layers]
         ensures
             r is Ok ==> !final(writer).failed@ && final(writer).log@ == old(writer).log@.push(Ev::Child(self.rid(), runtime.ident())),
             r is Err ==> (final(writer).log@ == old(writer).log@ || final(writer).log@ == old(writer).log@.push(Ev::Partial(self.rid(), runtime.ident()))),
